@@ -133,6 +133,7 @@ def cases(draw: T.Any) -> dict:
         'ct_env': draw(st.lists(arg_text(False), min_size=1, max_size=3)),
         'ct_nl': draw(args_list(newline=True)) + ['a\nb'],
         'rt': no_sep(draw(args_list())),
+        'rt_tw': no_sep(draw(args_list(lo=2, hi=3))),
         'gen': draw(args_list(hi=4)),
         'test': draw(args_list(newline=True)),
         'test_env': draw(st.lists(arg_text(True), min_size=1, max_size=3)),
@@ -160,6 +161,12 @@ def compile_arg_lists(c: dict) -> T.Dict[str, T.List[str]]:
     return d
 
 
+def twin_lists(c: dict) -> T.Tuple[T.List[str], T.List[str]]:
+    a = list(c['rt_tw']) + ['a\nb']
+    b = [a[0] + ' ' + a[1]] + a[2:]
+    return a, b
+
+
 def build_files(c: dict, logdir: str) -> T.Dict[str, T.Union[str, bytes]]:
     ca = compile_arg_lists(c)
     L = mq(logdir)
@@ -178,6 +185,12 @@ def build_files(c: dict, logdir: str) -> T.Dict[str, T.Union[str, bytes]]:
     lines.append(f"custom_target('ct_env', output: 'ct_env.out', env: {{{envd}}}, command: [dump, '--log', {L}, '--id', 'ct_env', '--touch', '@OUTPUT@', '--', {mlist(c['ct_env_args'])}])")
     lines.append(f"custom_target('ct_nl', output: 'ct_nl.out', command: [dump, '--log', {L}, '--id', 'ct_nl', '--touch', '@OUTPUT@', '--', {mlist(c['ct_nl'])}])")
     lines.append(f"run_target('rt', command: [dump, '--log', {L}, '--id', 'rt', '--', {mlist(c['rt'])}])")
+    if c.get('rt_tw'):
+        # twin commands: same program, same options, argument lists that differ only in where the words are split;
+        # both go through the pickled wrapper (newline argument), which names its data file by a digest of the command
+        a, b = twin_lists(c)
+        lines.append(f"run_target('rt_tw1', command: [dump, '--log', {L}, '--id', 'rt_tw', '--', {mlist(a)}])")
+        lines.append(f"run_target('rt_tw2', command: [dump, '--log', {L}, '--id', 'rt_tw', '--', {mlist(b)}])")
     lines.append(f"g = generator(dump, output: '@BASENAME@.h', arguments: ['--log', {L}, '--id', 'gen', '--touch', '@OUTPUT@', '--', {mlist(c['gen'])}])")
     lines.append(f"executable('e', 'main.c', g.process('gin.txt'), c_args: [{mlist(ca['c_args'])}], link_args: [{mlist(ca['link_args'])}])")
     tenv = ', '.join(f"'VERIF_E{i}': {mq(v)}" for i, v in enumerate(c['test_env']))
@@ -384,6 +397,23 @@ def check_case(c: dict, workdir: str, ev: T.Optional[Evidence], confirm_sub: boo
         if f:
             return f
         pos_results.append(('run_target', c['rt']))
+        if c.get('rt_tw'):
+            for name, want_args in zip(('rt_tw1', 'rt_tw2'), twin_lists(c)):
+                for pth in glob.glob(os.path.join(logdir, 'rt_tw.*.json')):
+                    os.unlink(pth)
+                rr, err = run_out('meson-internal__' + name)
+                if rr is None:
+                    return Failure('run_target-twin/no-statement', c, err)
+                if rr.rc != 0:
+                    return Failure('run_target-twin/command-fails', c, f'{name}: the generated command failed (exit {rr.rc}):\n$ {rr.command}\n{rr.output[-800:]}')
+                recs = read_records(logdir, 'rt_tw')
+                if len(recs) != 1:
+                    return Failure(f'run_target-twin/ran-{len(recs)}-times', c, f'{name}: expected exactly one execution, saw {len(recs)}\n$ {rr.command}')
+                if recs[0]['argv'] != sl(want_args):
+                    return Failure('run_target-twin/argv-differs', c,
+                                   f'{name} (pickled wrapper; a second run_target has the same words split differently): argv received differs from '
+                                   f'the build definition\n expected: {sl(want_args)!r}\n received: {recs[0]["argv"]!r}\n$ {rr.command}')
+            pos_results.append(('run_target/pickled-twin', twin_lists(c)[0]))
         # generator
         f = position('generator', 'gen', 'e.p/gin.h', [[c['gen'], sl(c['gen'])]], 'generator')
         if f:
